@@ -104,6 +104,38 @@ CHECKS.update({
                   "read_late_failure avoided and replayed",
              technique="Coq induction over fold_left step + fuelled get_next with pigeonhole bound + vm_compute correspondence + isolation differential", design="6/C19"),
 })
+CHECKS.update({
+ "C07": dict(text="Machine-checked refinement of a Gallina model of ItemSpaces (parameter formulas as data, bind with defaults/keywords, nested instances, the deletions every base edit performs) to an "
+                  "uncached substitution semantics: instance evaluation = base evaluation with parameters and returned references bound, same-binding arguments give the same instance, isolation "
+                  "between instances, freshness after any edit history, for all operation sequences. Tied to /repo on every run by a per-operation correspondence; the proved spec function is also "
+                  "evaluated on the implementation's own outputs, plus a fresh-model differential.",
+             note="trusted: Coq kernel + vm_compute; Python harness; inspect.Signature.bind; weakref-based handle reuse rests on the tie; modelled not verified: int-valued refs, no ItemSpace requests or "
+                  "cells calls from inside parameter formulas (differential only), no inheritance between static spaces, whole-instance cache clearing stands in for trace-graph clearing on in-place "
+                  "reference change; triggers of D14 D15 D16 D18 D38 avoided",
+             technique="Coq refinement proof (invariant by induction over operations and fuel) + vm_compute correspondence + proved-spec oracle + fresh-model differential", design="6/C07"),
+})
+CHECKS.update({
+ "C10": dict(text="Coq theorems over an executable model of get_relative / on_inherit / ItemSpace rebinding and of edit histories: full characterisation of relative rebinding for all modes, paths and "
+                  "nesting depths (binding = rebind mode definer target deriver), absolute/outside targets unchanged, chains compose, the incremental state equals from-scratch derivation for all "
+                  "histories; tied to /repo on every run by a grid plus random histories evaluated inside Coq and by an identity-based property oracle on the live objects (incl. write/read).",
+             note="trusted: Coq kernel + vm_compute, harness (relref driver, c10model trigger mirror); modelled not verified: the C3 order is an observed input (C03), existence of corresponding objects, "
+                  "ItemSpace freshness (C07), serializer internals (round trip observed only); histories avoid the triggers of 10 recorded defects",
+             technique="Coq refinement to a path-algebra spec (induction over names and edit lists) + vm_compute correspondence + identity/differential oracle", design="6/C10"),
+})
+CHECKS.update({
+ "C11": dict(text="Machine-checked proof on a Gallina model of the name-level editing API: every rejected operation returns the identical state (any state, all 13 rejection reasons, incl. exact roll-back "
+                  "of new_cells/new_space), and every history leaves the base relation acyclic with a C3 linearisation for every space and only valid identifiers as space and cells names; tied to "
+                  "/repo on every run by executing the same histories in Coq and comparing outcome class and name maps after each operation, plus describe-before = describe-after oracle.",
+             note="trusted: Coq kernel + vm_compute, correspondence harness (nameslib.py, drivers/names.py); ideal model: pinned tree deviates on D3 D11 D12 D34 N4 N8 N10 N11 (witnesses replayed, triggers "
+                  "avoided); modelled not verified: which source texts are malformed (ast; one bit in the model), C3 from MX.C3; outside: cell values and inputs ((P) only)",
+             technique="Coq induction over fold_left step with invariants (tree / closed bases / all-MRO-ok / valid names), C3 commuting with injective relabelling + vm_compute correspondence", design="6/C11"),
+ "C12": dict(text="Machine-checked proof that in every reachable state cells, own references (defined or derived) and child spaces of a space are pairwise disjoint, that no operation can break this in any "
+                  "sub space, and that dir() and name lookup of spaces and ItemSpaces equal the chained containers with own references before model-level ones and parameters before base references; "
+                  "tied to /repo by the same histories with dir(), containers, getattr kinds and the library's self-checks observed after every operation.",
+             note="trusted: as C11; ideal model: pinned tree deviates on D13 D23 N1 N2 N3 N5 N6 N7 N9; modelled not verified: derived members are a view along the C3 order, ItemSpace observed at argument 0 "
+                  "only; the lazy-container refresh is exercised by the tie, not modelled",
+             technique="Coq name-disjointness invariant by induction with per-operation frame lemmas + vm_compute correspondence + self-check oracle", design="6/C12"),
+})
 EXPLORE = {}
 PENDING = {}
 for i in range(1, 21):
